@@ -159,6 +159,66 @@ PROPS = {
                 "pooled object equals the snapshot taken when it entered the pool. Non-trivial: >= 1 in-place write and >= 1 derivation; distinct = FNV-64 of the history.",
         "assumptions": COMMON_ASSUMPTIONS,
     },
+    "C05": {
+        "level": "exploration",
+        "jobs": [{"test": "TestC05", "kind": "rapid", "quick": 80000, "thorough": 2000000}],
+        "fuzz": [{"fuzz": "FuzzSML", "budget_s": 120}],
+        "floors": {"class:reject": ("job:TestC05", 0.2), "spell:hex": ("job:TestC05", 0.2), "spell:octal": ("job:TestC05", 0.1), "spell:binary": ("job:TestC05", 0.1),
+                   "spell:ascii-code": ("job:TestC05", 0.1), "spell:backslash-in-quotes": ("job:TestC05", 0.01), "spell:float-e": ("job:TestC05", 0.05),
+                   "size:range": ("job:TestC05", 0.05)},
+        "rule": "texts built FROM values: rapid draws 1-3 messages (header, item tree over the 14 types with values, variables, bounded ASCII variables, ellipses) and a speller draws the "
+                "spelling of every literal and keyword (decimal / 0x / 0o / 0b with either-case prefixes and digits, signs, floats as shortest / %e / %f / 25-digit / integer-looking with "
+                "e or E and optional +, strings as quoted runs of any printable ASCII incl. backslash, //, <, >, . split into several runs and character codes in any base, T/F/t/f, type names "
+                "and header tokens in any case, optional size declarations in all four forms). In a third of the cases one literal that the item type cannot represent (just out of range, "
+                "wrongly typed, non-ASCII, invalid UTF-8, absurdly large) is inserted. Oracle: MUST-ACCEPT texts: no error, one message per written message, header fields and variables equal, "
+                "String() equal to the message constructed directly from the denoted values, and after completion ToBytes() == reference encoding of the denoted values; MUST-REJECT texts: "
+                ">= 1 error and no message. Non-trivial: >= 1 literal that is not a plain decimal/shortest float, or a rejected text.",
+        "notes": ["spellings whose denotation is not documented (+5 in an unsigned item, -0, 5. / .5, leading-zero decimals, hex in float items, raw control characters inside quotes) are not generated"],
+        "assumptions": COMMON_ASSUMPTIONS + ["strconv.FormatFloat in the generator writes literals that denote the intended float"],
+    },
+    "C04": {
+        "level": "exploration",
+        "jobs": [
+            {"test": "TestC04", "kind": "rapid", "quick": 60000, "thorough": 1500000},
+            {"test": "TestC04Accepted", "kind": "rapid", "quick": 40000, "thorough": 800000},
+        ],
+        "fuzz": [{"fuzz": "FuzzSML", "budget_s": 120}],
+        "floors": {"has:quote": ("job:TestC04", 0.02), "has:backslash": ("job:TestC04", 0.02), "has:control-char": ("job:TestC04", 0.05), "has:ellipsis": ("job:TestC04", 0.1),
+                   "has:ascii-variable": ("job:TestC04", 0.02), "has:float": ("job:TestC04", 0.1), "has:name": ("job:TestC04", 0.4), "text:accepted": ("job:TestC04Accepted", 0.15)},
+        "rule": "(i) rapid-generated data messages (any header incl. optional wait bit, 3 directions, multi-script names that the header lexer reads as one name; item trees with values of "
+                "all 14 types incl. every ASCII code 0..127, boundary numbers and floats, element variables, bounded ASCII variables, item variables, nested ellipses in either naming) built "
+                "through the factories, printed, parsed: exactly 1 message, 0 errors, 0 warnings, equal header fields, variables (modulo the documented ellipsis numbering), printed form, "
+                "and, after completing both sides from the printed form alone, equal bytes; the re-parsed message is also compared with the model. (ii) for every accepted text (generated "
+                "free-layout texts and token soups) each returned message is printed and parsed again: fixed point. Non-trivial: tree contains a character outside [A-Za-z0-9 ], a float, a "
+                "variable or an ellipsis (i) / the text was accepted with >= 1 message (ii).",
+        "assumptions": COMMON_ASSUMPTIONS,
+    },
+    "C06": {
+        "level": "exploration",
+        "jobs": [{"test": "TestC06", "kind": "rapid", "quick": 60000, "thorough": 1000000}],
+        "fuzz": [{"fuzz": "FuzzSML", "budget_s": 240}],
+        "floors": {"origin:soup": ("job:TestC06", 0.3), "origin:nesting": ("job:TestC06", 0.05), "origin:valid-text": ("job:TestC06", 0.1), "origin:mutated-valid-text": ("job:TestC06", 0.1),
+                   "outcome:accepted": ("job:TestC06", 0.1), "outcome:errors": ("job:TestC06", 0.3)},
+        "rule": "strings up to 64 KiB: token soups over the SML vocabulary with hostile fragments (20-40 digit numbers in stream/function/sizes/literals, every Unicode space in every "
+                "position, invalid UTF-8, NUL, unclosed quotes and brackets, duplicated variables with and without huge sizes), nesting up to the depth cap, valid generated texts under "
+                "random layouts, the same with one token- or byte-level mutation, random bytes. Oracle, in an isolated worker process (RLIMIT_AS 4 GiB, 20 s + 60 s two-stage watchdog): "
+                "returns normally (no escaping panic, no fatal runtime error, no hang); errors => no messages; valid-by-construction texts without errors return every written message in order; "
+                "every error and warning reads Ln x, Col y: text with the position inside the input. Non-trivial: the input contains a complete SxFy token.",
+        "notes": ["operational limits (part of the property's definition here): input <= 64 KiB, address space 4 GiB, watchdog 20 s then 60 s alone in a fresh worker; nesting depth capped (300 quick / 2000 thorough) because parsing is quadratic in depth"],
+        "assumptions": COMMON_ASSUMPTIONS + ["a watchdog expiry is never a verdict by itself: the input is re-run alone; only a second expiry is reported as a hang"],
+    },
+    "C08": {
+        "level": "exploration",
+        "jobs": [{"test": "TestC08", "kind": "rapid", "quick": 60000, "thorough": 1200000}],
+        "floors": {"case-flipped": ("job:TestC08", 0.15), "outcome:errors": ("job:TestC08", 0.2), "outcome:messages": ("job:TestC08", 0.3), "diag-position-compared": ("job:TestC08", 0.2)},
+        "rule": "a token sequence (1-3 generated messages with drawn spellings; valid, or made invalid by dropping / duplicating / inserting one token) rendered under two independently "
+                "drawn layouts: separators from {SP, TAB, LF, CRLF, runs, nothing where tokens cannot fuse}, optional // comments before line ends (text in Latin-1, Cyrillic, CJK, emoji, "
+                "quotes, //, <, ., trailing blanks, and with raised weight a last character whose final UTF-8 byte is 0x85 or 0xA0), and in half of the cases the opposite letter case for "
+                "stream/function letters, W, directions, type names, T/F, number prefixes and exponent letters. Oracle (metamorphic): same number of messages with equal String(); same "
+                "number of errors and warnings with equal texts (case-folded when the case differs); each diagnostic position that is the start of token k under layout A is the start of "
+                "token k under layout B. Non-trivial: the layouts differ in a comment or a line break.",
+        "assumptions": COMMON_ASSUMPTIONS,
+    },
     "C02": {
         "level": "exploration",
         "jobs": [
@@ -186,6 +246,29 @@ NOT_APPLICABLE = {}
 
 _PBT = "property-based testing (pgregory.net/rapid generators + shrinking)"
 MANIFEST_TEXT = {
+    "C08": {
+        "technique": "metamorphic " + _PBT + ": the same token sequence under two generated layouts / letter cases must parse to the same messages and diagnostics (positions mapped token by token)",
+        "level_text": "Generated pairs of layouts over valid and invalid token sequences; relation checked on messages, diagnostic texts and diagnostic positions.",
+        "level_note": "Trusted: the renderer's rule for where no separator is needed (tokens that cannot fuse); positions inside a token are not compared.",
+    },
+    "C04": {
+        "technique": _PBT + ": print->parse round trip and fixed-point oracle over generated messages and over accepted generated texts; native fuzzing (thorough)",
+        "level_text": "Round-trip exploration in both directions: factory-built messages printed and parsed back (compared on header, variables, text, bytes and against the model), and accepted "
+                      "texts re-printed and re-parsed.",
+        "level_note": "Trusted: model.ReadItem to derive completion values from the printed form; names are restricted to what the header lexer reads as one name (independent predicate).",
+    },
+    "C06": {
+        "technique": "fuzzing with structured generators (rapid token soups, mutations of valid texts, random bytes) in an isolated worker process + native coverage-guided go fuzzing (thorough); totality / all-or-nothing / diagnostic-format oracle",
+        "level_text": "Generated hostile inputs are parsed in a separate process with an address-space limit and a watchdog, so panics, fatal runtime errors (out of memory, stack overflow, deadlock) "
+                      "and hangs are all observable and shrinkable.",
+        "level_note": "Limits (4 GiB, 64 KiB, 20 s/60 s, nesting cap) are part of the operational definition and are printed in the evidence; polynomial slowness is not reported.",
+    },
+    "C05": {
+        "technique": _PBT + ": texts generated from values with drawn spellings (denotation known by construction), accept/reject oracle + reference encoder; native fuzzing of sml.Parse in the thorough tier",
+        "level_text": "Generated texts over the documented literal grammar for all 14 item types with in-range, boundary, just-out-of-range and wrongly-typed literals; the parsed message must "
+                      "hold exactly the denoted values (compared through direct construction and the reference encoding).",
+        "level_note": "Trusted: the speller (smlgen_test.go) writes what it means; undocumented spellings are excluded rather than guessed.",
+    },
     "C11": {
         "technique": "stateful " + _PBT + ": generated API-call histories over an object pool with in-place mutation of every argument / returned slice; snapshot invariant after every step",
         "level_text": "History exploration: the whole operation sequence is one shrinkable value; an aliasing bug shows up as a changed snapshot of an older pooled object.",
